@@ -119,6 +119,18 @@ func TestVerifClose(t *testing.T) {
 		if _, ok := s.Get(1); ok {
 			tr.viol("Get hit after Close")
 		}
+		if hybrid {
+			// ... in both tiers: a Set / Delete after Close must not touch the secondary cache either
+			_ = sec.Set(777001, 42, 1, 0)
+			_ = sec.Set(777002, 43, 1, 0)
+			s.Set(777001, 1, 1, 0)
+			_ = s.DeleteWithSecondary(777002)
+			for _, k := range []int{777001, 777002} {
+				if v, _, _, ok, _ := sec.Get(k); !ok || v != 42+(k-777001) {
+					tr.viol(fmt.Sprintf("C10: after Close had returned a %s of key %d changed the secondary cache (copy now: %d, present %v)", map[int]string{777001: "Set", 777002: "Delete"}[k], k, v, ok))
+				}
+			}
+		}
 		s.Set(123456, 1, 1, 0)
 		s.Delete(1)
 		if s.Len() != 0 {
